@@ -35,7 +35,9 @@ REQUIRED = [
     # arbitrary nesting
     'laws_compose', 'laws_compose_restrict', 'denote_tolerant',
     # ideal readings; before/after witnesses of the repaired defects; witnesses of the two open ones
-    'conditioned_ideal', 'fix_904ccca_now', 'fix_904ccca_before_witness',
+    'seatsOptional_faithful', 'seatsForm_given', 'seatsForm_none_optional', 'seatsForm_none_required',
+    'conditioned_omitted_stays_omitted', 'conditioned_required_gets_none', 'conditioned_given_seats',
+    'fix_904ccca_now', 'fix_904ccca_before_witness',
     'fix_e582ee8_partyList_now', 'fix_e582ee8_partyList_before_witness',
     'fix_e582ee8_generic_now', 'fix_e582ee8_generic_before_witness',
     'fix_9f4a9df_all_zero_now', 'fix_9f4a9df_all_zero_before_witness',
@@ -44,7 +46,9 @@ REQUIRED = [
     'fix_e582ee8_byParty_seatless_now', 'fix_e582ee8_byParty_seatless_before_witness',
     'fix_5bf2df2_byParty_max_seats_now', 'fix_5bf2df2_byParty_max_seats_before_witness',
     'byParty_law_columns', 'byParty_eq_of_columns', 'partyColumn_ok_of_nested',
-    'conditioned_none_seats_witness',
+    'fix_cond_none_seats_now', 'fix_cond_none_seats_before_witness',
+    'fix_cond_none_seats_byParty_now', 'fix_cond_none_seats_byParty_before_witness',
+    'fix_cond_none_seats_preselector_now', 'fix_cond_none_seats_preselector_before_witness',
     # what the laws say
     'multistage_chain', 'multistage_nil', 'tieBreaking_noTie_sel', 'tieBreaking_noTie_dist', 'tieChoice_among',
     'tieBreaking_ideal', 'replaceSel_eq_fill', 'fillTie_other_places', 'fillTie_length', 'collectSel_count',
@@ -323,9 +327,8 @@ class Hand:
         k = b.kind
         K = b.kids
         if k in LEAF_TAKES:
-            # a part is given what it takes; "no seat count" (None) reaches a leaf as an omitted argument
-            return call_obj(b.obj, votes, {a: v for a, v in kw.items()
-                                           if a in LEAF_TAKES[k] and not (a == 'n' and v is None)})
+            # a part is given what it takes
+            return call_obj(b.obj, votes, {a: v for a, v in kw.items() if a in LEAF_TAKES[k]})
         if k == 'fixed':
             # a fixed seat count equals passing that count
             kw2 = dict(kw)
@@ -404,7 +407,7 @@ class Hand:
         depth = b.node['depth']
         prev = kw.get('prev', {})
         passed = self.run(b.kids['elim'], _totals(votes, depth), {'prev': _totals(prev, depth)})
-        kw2 = dict(kw)
+        kw2 = _no_seats_form(b.kids['e'], dict(kw))
         kw2['prev'] = prev
         return self.run(b.kids['e'], _restrict(votes, passed, depth), kw2)
 
@@ -435,7 +438,7 @@ class Hand:
         seats = self._apportion(b, votes, n)
         allowed = None
         if 'pre' in b.kids:
-            allowed = self.run(b.kids['pre'], _totals(votes, 2), {} if n is None else {'n': n})
+            allowed = self.run(b.kids['pre'], _totals(votes, 2), _no_seats_form(b.kids['pre'], {'n': n}))
         out, empty = {}, []
         for con, cvotes in votes.items():
             if seats.get(con, 0) == 0:      # a constituency the apportionment does not mention has no seats
@@ -456,7 +459,7 @@ class Hand:
     def _by_party(self, b, votes, kw):
         self._no_lists(kw)
         prev, mx = kw.get('prev', {}), kw.get('max', {})
-        overall = self.run(b.kids['overall'], _totals(votes, 2), {'n': kw['n']} if kw.get('n') is not None else {})
+        overall = self.run(b.kids['overall'], _totals(votes, 2), _no_seats_form(b.kids['overall'], {'n': kw.get('n')}))
         alloc = b.kids.get('alloc') or b.kids['overall']
         out = {con: {} for con in votes}
         for party, seats in overall.items():
@@ -481,13 +484,11 @@ class Hand:
     def _unused(self, b, votes, kw):
         import votelib.component.quota as vquota
         import votelib.evaluate.core as vcore
-        if kw.get('n') is None:
-            raise TypeError('n_seats missing')
         if kw.get('max'):
             raise NotImplementedError('max_seats not supported')
         depth = b.node['depth']
         acc = copy.deepcopy(kw.get('prev', {}))
-        n = kw['n']
+        n = kw.get('n')
         rounds = b.kids['rounds']
         quotas = [vquota.construct(q) for q in b.node['quotas']] + [None]
         for st, q in zip(rounds, quotas):
@@ -613,8 +614,9 @@ def impl(case):
     watch = []
     res = guarded(lambda: enc(call_obj(root.obj, votes, kw, watch)))
     ams = getattr(vcore, 'accepts_max_seats', None)
+    sopt = getattr(vcore, 'seats_optional', None)
     flags = [[bool(vcore.accepts_seats(b.obj)), bool(vcore.accepts_prev_gains(b.obj)),
-              bool(ams(b.obj)) if ams else None] for b in root.preorder()]
+              bool(ams(b.obj)) if ams else None, bool(sopt(b.obj)) if sopt else None] for b in root.preorder()]
     return {'res': res, 'flags': flags, 'mutated': bool(watch)}
 
 
@@ -664,6 +666,30 @@ def _agree(w, h):
         # different statements)
         return w['err'] == h['err'] or (w['err'] not in DECLARED and h['err'] not in DECLARED)
     return same(canon_v(w), _canon_hand(h))
+
+
+LEAF_NEEDS_SEATS = {'ha'}        # n_seats is a required argument of the leaf
+
+
+def needs_seats(b):
+    """the part cannot be called without a seat count argument: "no seat count" is written None for it"""
+    k = b.kind
+    if k in LEAF_TAKES:
+        return k in LEAF_NEEDS_SEATS
+    if k == 'tb':
+        return needs_seats(b.kids['main'])
+    if k in ('pre', 'post', 'vs'):
+        return needs_seats(b.kids['e'])
+    return k in ('multi', 'unused', 'plist')
+
+
+def _no_seats_form(b, kw):
+    """no seat count (omitted or None) stays no seat count, written as the part takes it"""
+    if kw.get('n') is None:
+        kw.pop('n', None)
+        if needs_seats(b):
+            kw['n'] = None
+    return kw
 
 
 def takes(b):
@@ -718,6 +744,8 @@ def diagnose(b, votes, kw, w, h):
             return 'bycon:district_missing_from_apportionment:' + sym
         if vflag_prev(inner) and 'max' not in takes(inner) and _is_err(w):
             return 'bycon:max_seats_forced_on_inner_without_it:' + sym
+        if pre is not None and _takes_seats(pre) and kw.get('n') is None and _is_err(w):
+            return 'bycon:preselector_n_seats_omitted_forwarded_as_None:' + sym
         if pre is not None and pre.kind in generic and not _takes_seats(pre) and _is_err(w):
             return 'bycon:preselector_accepts_seats_generic_over_seatless:' + sym
         if not vflag_prev(inner) and _takes_prev(inner) and (kw.get('prev') or kw.get('max')):
@@ -778,7 +806,13 @@ def compare(case, iobs, mobs):
         # ByParty walks the parties in the insertion order of the overall result; the shared HighestAverages
         # model does not fix that order (results are compared as maps), so when several parties fail for
         # different reasons WHICH exception surfaces first is not modelled: any two errors agree there
-        order_free = _is_err(w) and _is_err(m) and 'byparty' in set(tree_kinds(case['tree']))
+        kinds = set(tree_kinds(case['tree']))
+        order_free = _is_err(w) and _is_err(m) and 'byparty' in kinds
+        # an unused-votes stage that over-awards leaves a negative seat count to the next stage; no leaf model
+        # covers that, only "both crash with an undeclared exception" is compared there
+        if (_is_err(w) and _is_err(m) and 'unused' in kinds
+                and w['err'] not in DECLARED and m['err'] not in DECLARED):
+            order_free = True
         if not (same_class or order_free):
             msgs.append(f'impl={json.dumps(w)[:300]} model={json.dumps(m)[:300]}')
     elif canon_v(w) != canon_v(m):
@@ -794,6 +828,7 @@ def nontrivial(case, obs):
 
 NAMED_CLASSES = ('no_district_evaluated', 'district_missing_from_apportionment', 'max_seats_forced_on_inner_without_it',
                  'preselector_accepts_seats_generic_over_seatless', 'n_seats_omitted_forwarded_as_None',
+                 'preselector_n_seats_omitted_forwarded_as_None',
                  'accepts_seats_generic_over_seatless', 'arguments_mutated', 'depth2_single_seat_number')
 
 
@@ -1028,7 +1063,10 @@ def g_d2(rng, d, cons, spec, gains=False):
         inner = g_d1(rng, d - 1, gains and rng.random() < 0.8) if rng.random() < 0.75 else g_s1(rng, d - 1)
         n = {'k': 'bycon', 'e': inner, 'app': g_app(rng, d - 2, cons, app_kind)}
         if rng.random() < 0.3:
-            n['pre'] = g_thr(rng) if rng.random() < 0.7 or d < 2 else {'k': 'fixed', 'e': g_s1(rng, 0), 'n': str(rng.randint(1, 3))}
+            r = rng.random()
+            n['pre'] = (g_thr(rng) if r < 0.6 or d < 2 else
+                        {'k': 'fixed', 'e': g_s1(rng, 0), 'n': str(rng.randint(1, 3))} if r < 0.8 or spec == 'dict' else
+                        g_s1(rng, 0))      # a preselector that takes the seat count (top n nationally)
         return n
     if k == 'preapp':
         return {'k': 'preapp', 'e': g_d2(rng, d - 1, cons, 'dict', gains), 'app': g_app(rng, d - 2, cons, app_kind or 'app_int')}
@@ -1037,7 +1075,11 @@ def g_d2(rng, d, cons, spec, gains=False):
     if k == 'multi2':
         return {'k': 'multi', 'rounds': [g_d2(rng, d - 1, cons, spec, True) for _ in range(rng.randint(1, 2))], 'depth': 2}
     if k == 'byparty':
-        return {'k': 'byparty', 'overall': g_d1(rng, d - 1, False), 'alloc': g_d1(rng, d - 1, rng.random() < 0.7) if rng.random() < 0.6 else None}
+        overall = g_d1(rng, d - 1, False)
+        if rng.random() < 0.25:
+            # an overall evaluator with a default seat count
+            overall = {'k': 'post', 'e': g_s1(rng, 0), 'c': {'c': 'sel_to_dist', 'amount': '1'}}
+        return {'k': 'byparty', 'overall': overall, 'alloc': g_d1(rng, d - 1, rng.random() < 0.7) if rng.random() < 0.6 else None}
     return {'k': 'vs', 'e': g_d2(rng, d - 1, cons, spec, gains)}
 
 
@@ -1119,6 +1161,15 @@ def needs_n(node):
     return k in ('multi', 'unused', 'plist')
 
 
+def root_kind(node):
+    k = node['k']
+    if k in ('vs', 'pre', 'post'):
+        return root_kind(node['e'])
+    if k == 'tb':
+        return root_kind(node['main'])
+    return k
+
+
 def mk_case(tree, args, tags):
     tags = list(tags)
     for k in set(tree_kinds(tree)):
@@ -1172,11 +1223,9 @@ def gen_flat(rng, d, kind):
     if r < 0.12:
         tree = {'k': 'fixed', 'e': tree, 'n': args.pop('n')}
         tags = ['seatspec:fixed']
-    elif r < 0.16:
+    elif r < 0.16 and not needs_n(tree):
         del args['n']               # no seat count at all: leaves with a default, wrappers with n_seats=None
         tags = ['seatspec:omitted']
-        if needs_n(tree):
-            args['n'] = None
     elif r < 0.2 and d > 1:
         # a seatless evaluator behind a pass-through wrapper, under a dispatcher
         inner = {'k': rng.choice(['vs', 'pre']), 'e': {'k': 'fixed', 'e': tree, 'n': args.pop('n')}}
@@ -1215,6 +1264,8 @@ def gen_nested(rng, d):
         tags.append('seatspec:none')
         if needs_n(tree):
             args['n'] = None        # n_seats is a required parameter there: "no seat count" is written None
+            if root_kind(tree) == 'unused':     # its quota arithmetic needs numbers
+                args['n'] = {'dict': [[c, str(rng.choice([1, 2, 3]))] for c in cons]}
     if takes_gains_json(tree) and tree['k'] != 'pre':
         if rng.random() < 0.5:
             args['prev'] = {'dict': [[c, g_gains(rng, parties, 2)] for c in cons if rng.random() < 0.7]}
@@ -1413,8 +1464,11 @@ ASSUMPTIONS = [
     'the dispatch flags is assumed (dispatchFaithful_all).  A ByParty allocator taking only part of (prev_gains, max_seats) '
     'is outside it only because the law computes both columns; such calls are covered per call by byParty_law_columns',
     'a.fits (takes t): the call gives the tree no argument it cannot take',
-    'laws_compose is about the laws as the code reads them; the one remaining difference to the ideal reading is '
-    'Conditioned forwarding its default n_seats=None (conditioned_ideal + conditioned_none_seats_witness)',
+    'with notes/fix_C14_cond_none_seats.diff no seat count (omitted or the default None of Conditioned / ByParty / '
+    'ByConstituency) stays no seat count for a part that can be called without one (conditioned_omitted_stays_omitted); '
+    'a part whose n_seats is a REQUIRED parameter (MultistageDistributor, UnusedVotesDistributor, PartyListEvaluator) is '
+    'still told None (conditioned_required_gets_none), so that compositions that worked keep working; the laws carry '
+    'that one semantic bit of the part (needsSeats), proved equal to the negation of seats_optional wherever consulted',
 ]
 RULE = ('wrapper trees of 0-4 wrapper levels over Plurality / InputOrderSelector / HighestAverages(5 divisors) / Absolute-, Relative-, '
         'PreviousGain-threshold; 2-5 parties, 1-4 constituencies, votes from tie-forcing small sets (x1, x5, x100, some Fractions), '
@@ -1433,12 +1487,11 @@ LEVEL_TEXT = ('core.py\'s thirteen wrapper classes are modelled as a deep embedd
               'under node-local typing conditions, and by structural induction a well-formed tree of any depth over any leaves evaluates '
               'to the composition of its parts (laws_compose).  The more demanding readings (omitted seat count stays omitted; tie '
               'places filled in order; exactly as many list candidates as seats won; each constituency separately) are proved under '
-              'explicit decidable conditions; every repaired defect has a before/after pair of decide-checked witnesses, the one open '
-              'finding a witness.  The model is tied to /repo by a three-way differential check (wrapper, hand composition with the same '
+              'explicit decidable conditions; every repaired defect has a before/after pair of decide-checked witnesses, no finding is open once '
+              'notes/fix_C14_cond_none_seats.diff is committed.  The model is tied to /repo by a three-way differential check (wrapper, hand composition with the same '
               'leaf objects, Lean interpreter) on random typed trees, and the hard-coded dispatch flags are compared with votelib\'s on '
               'the live objects of every case.')
 LEVEL_NOTE = ('Trusted: Lean kernel + propext/Classical.choice/Quot.sound; the correspondence harness and its generator bounds (depth <= 4, '
               'six leaf classes, closed lists); inspect.signature itself (flags hard-coded per class, cross-checked on every case); the '
-              'shared HighestAverages / get_n_best models as leaves.  One open finding (Conditioned forwards its default n_seats=None) is '
-              'matched by its (wrapper, input class) signature; thirteen fixed entries (904ccca, 3968d16, caf8ac3, 9f4a9df, e582ee8, '
-              '5bf2df2) are replayed on every run.')
+              'shared HighestAverages / get_n_best models as leaves.  No open finding; sixteen fixed entries (904ccca, 3968d16, caf8ac3, 9f4a9df, e582ee8, 5bf2df2 and the pending '
+              'n_seats=None repair) are replayed on every run.')
